@@ -3,7 +3,7 @@
    reference (streaming LINQ) semantics - or fails exactly when the query is undefined.
    Proved over the big-step semantics Cpp/Exec.v; unbounded in the size and nesting of the expression, the
    number of collections and the size of the event. *)
-From FV Require Import Base.Prelude Cpp.IR Cpp.Exec Model.Lowering Proofs.LoweringProofs Model.FragTranslate.
+From FV Require Import Base.Prelude Cpp.IR Cpp.Exec Model.Lowering Proofs.LoweringProofs Model.FragTranslate Proofs.FrameShape.
 From FV Require Model.TreeSchema Proofs.TreeSchemaProofs.
 Notation last_digit := TreeSchemaProofs.last_digit.
 Notation name_index_split := TreeSchemaProofs.name_index_split.
@@ -881,20 +881,16 @@ Fixpoint size (e : ex) : nat :=
   match e with
   | EInt _ | EDbl _ _ _ => 0 | ECount k => 3 + gsize (k_guard k) + agg_nifs (k_agg k)
   | EBin _ a b | EDiv a b => size a + size b | EIdx _ _ _ => 1 | ENeg a | EFun _ a => size a
+  | EBool _ a b => S (size a + size b)
   end.
+Definition ebo_name (n : nat) : string := nm "bool_op" n.
 Definition idx_cv (c : collref) (n : nat) : string := nm (c_base c) n.
 Fixpoint tds (e : ex) (n : nat) : list decl :=
   match e with
   | EInt _ => [] | ECount k => tcount_decls k n | EBin _ a b => tds a n ++ tds b (n + size a)
   | EIdx c _ _ => [{| d_type := c_ctype c; d_name := idx_cv c n; d_init := None |}]
   | EDbl _ _ _ => [] | EDiv a b => tds a n ++ tds b (n + size a) | ENeg a | EFun _ a => tds a n
-  end.
-Fixpoint tss (idiom : string) (e : ex) (n : nat) : stmts :=
-  match e with
-  | EInt _ => SNil | ECount k => tcount_stmts idiom k n
-  | EBin _ a b => app_stmts (tss idiom a n) (tss idiom b (n + size a))
-  | EIdx c _ _ => one_stmt (SFetch idiom (idx_cv c n) (c_ctype c) (c_bank c) (fetch_lines idiom (c_ctype c) (c_bank c)))
-  | EDbl _ _ _ => SNil | EDiv a b => app_stmts (tss idiom a n) (tss idiom b (n + size a)) | ENeg a | EFun _ a => tss idiom a n
+  | EBool _ a _ => bo_decl (ebo_name n) :: tds a (S n)
   end.
 Definition idx_exp (c : collref) (i : nat) (m : string) (n : nat) : cexp :=
   CMeth (CMeth (CVar (idx_cv c n)) true "at" (CCons (CInt (Z.of_nat i)) CNil)) (c_arrow c) m CNil.
@@ -907,10 +903,21 @@ Fixpoint tc (e : ex) (n : nat) : cexp :=
   | EDiv a b => CBin "/" (if ex_div_needs_cast a b then CCast "double" (tc a n) else tc a n) (tc b (n + size a))
   | ENeg a => CUn "-" (tc a n)
   | EFun f a => CCall f (CCons (tc a n) CNil)
+  | EBool _ _ _ => CVar (ebo_name n)
+  end.
+Fixpoint tss (idiom : string) (e : ex) (n : nat) : stmts :=
+  match e with
+  | EInt _ => SNil | ECount k => tcount_stmts idiom k n
+  | EBin _ a b => app_stmts (tss idiom a n) (tss idiom b (n + size a))
+  | EIdx c _ _ => one_stmt (SFetch idiom (idx_cv c n) (c_ctype c) (c_bank c) (fetch_lines idiom (c_ctype c) (c_bank c)))
+  | EDbl _ _ _ => SNil | EDiv a b => app_stmts (tss idiom a n) (tss idiom b (n + size a)) | ENeg a | EFun _ a => tss idiom a n
+  | EBool is_and a b =>
+      bo_lower is_and (ebo_name n) (tss idiom a (S n)) (tc a (S n))
+               [bo_operand (ebo_name n) (tds b (S n + size a)) (tss idiom b (S n + size a)) (tc b (S n + size a))]
   end.
 Lemma te_split (idiom : string) (e : ex) : forall n, te idiom e n = (tds e n, tss idiom e n, tc e n, n + size e).
 Proof.
-  induction e as [z|k|o a IHa b IHb|c i m|t z0 d0|a IHa b IHb|a IHa|fn a IHa]; intro n; cbn [te tds tss tc size].
+  induction e as [z|k|o a IHa b IHb|c i m|t z0 d0|a IHa b IHb|a IHa|fn a IHa|ia a IHa b IHb]; intro n; cbn [te tds tss tc size].
   - rewrite Nat.add_0_r. reflexivity.
   - replace (n + (3 + gsize (k_guard k) + agg_nifs (k_agg k))) with (S (S (S n)) + gsize (k_guard k) + agg_nifs (k_agg k)) by lia. reflexivity.
   - rewrite IHa, IHb. rewrite Nat.add_assoc. reflexivity.
@@ -919,6 +926,7 @@ Proof.
   - rewrite IHa, IHb. rewrite Nat.add_assoc. reflexivity.
   - rewrite IHa. reflexivity.
   - rewrite IHa. reflexivity.
+  - rewrite IHa, IHb. unfold ebo_name. replace (n + S (size a + size b)) with (S n + size a + size b) by lia. reflexivity.
 Qed.
 
 Fixpoint vars (e : ex) (n : nat) : list string :=
@@ -927,18 +935,28 @@ Fixpoint vars (e : ex) (n : nat) : list string :=
   | EBin _ a b => vars a n ++ vars b (n + size a)
   | EIdx c _ _ => [idx_cv c n]
   | EDbl _ _ _ => [] | EDiv a b => vars a n ++ vars b (n + size a) | ENeg a | EFun _ a => vars a n
+  | EBool _ a b => ebo_name n :: vars a (S n) ++ vars b (S n + size a)    (* incl. the names declared inside the if block *)
+  end.
+(* the names declared in the block the expression is translated into (those of vars without the ones inside if blocks) *)
+Fixpoint bvars (e : ex) (n : nat) : list string :=
+  match e with
+  | EInt _ | EDbl _ _ _ => [] | ECount k => [cv_name k n; kagg k n]
+  | EBin _ a b | EDiv a b => bvars a n ++ bvars b (n + size a)
+  | EIdx c _ _ => [idx_cv c n]
+  | ENeg a | EFun _ a => bvars a n
+  | EBool _ a _ => ebo_name n :: bvars a (S n)
   end.
 Fixpoint bases_ok (e : ex) : bool :=
   match e with
   | EInt _ => true | ECount k => base_ok (c_base (k_coll k)) | EBin _ a b => bases_ok a && bases_ok b
   | EIdx c _ _ => base_ok (c_base c)
-  | EDbl _ _ _ => true | EDiv a b => bases_ok a && bases_ok b | ENeg a | EFun _ a => bases_ok a
+  | EDbl _ _ _ => true | EDiv a b | EBool _ a b => bases_ok a && bases_ok b | ENeg a | EFun _ a => bases_ok a
   end.
 
 Lemma vars_shape (e : ex) : forall n x, bases_ok e = true -> In x (vars e n) ->
   exists b i, x = nm b i /\ last_digit b = false /\ first_not_underscore b = true /\ n <= i < n + size e.
 Proof.
-  induction e as [z|k|o a IHa b IHb|c i0 m|t z0 d0|a IHa b IHb|a IHa|fn a IHa]; intros n x Hb Hin; cbn [vars size bases_ok] in *.
+  induction e as [z|k|o a IHa b IHb|c i0 m|t z0 d0|a IHa b IHb|a IHa|fn a IHa|ia a IHa b IHb]; intros n x Hb Hin; cbn [vars size bases_ok] in *.
   - destruct Hin.
   - unfold base_ok in Hb. apply andb_prop in Hb as [H1 H2]. apply negb_true_iff in H1.
     destruct Hin as [<-|[<-|[]]].
@@ -955,6 +973,19 @@ Proof.
     + destruct (IHb _ x Hb' Hin) as (bb & i & E & L & F & R). exists bb, i. repeat split; auto; lia.
   - exact (IHa n x Hb Hin).
   - exact (IHa n x Hb Hin).
+  - apply andb_prop in Hb as [Ha Hb']. destruct Hin as [<-|Hin].
+    + exists "bool_op", n. repeat split; auto; lia.
+    + apply in_app_or in Hin as [Hin|Hin].
+      * destruct (IHa _ x Ha Hin) as (bb & i & E & L & F & R). exists bb, i. repeat split; auto; lia.
+      * destruct (IHb _ x Hb' Hin) as (bb & i & E & L & F & R). exists bb, i. repeat split; auto; lia.
+Qed.
+
+Lemma bvars_incl (e : ex) : forall n x, In x (bvars e n) -> In x (vars e n).
+Proof.
+  induction e as [z|k|o a IHa b IHb|c i0 m|t z0 d0|a IHa b IHb|a IHa|fn a IHa|ia a IHa b IHb]; intros n x H; cbn [vars bvars] in *; auto.
+  - apply in_app_or in H as [H|H]; apply in_or_app; [left; apply IHa|right; apply IHb]; exact H.
+  - apply in_app_or in H as [H|H]; apply in_or_app; [left; apply IHa|right; apply IHb]; exact H.
+  - destruct H as [H|H]; [left; exact H|right; apply in_or_app; left; apply IHa; exact H].
 Qed.
 
 Lemma vars_disjoint (a b : ex) (n : nat) (x : string) :
@@ -999,7 +1030,7 @@ Qed.
 (* the first phase succeeds whenever the ordinary evaluation has a value *)
 Lemma dstm_of_de (ev : event) (e : ex) : forall v, de ev e = ROk v -> dstm ev e = ROk tt.
 Proof.
-  induction e as [z|k|o a IHa b IHb|c i m|t z0 d0|a IHa b IHb|a IHa|fn a IHa]; intros v H; cbn [de dstm] in *.
+  induction e as [z|k|o a IHa b IHb|c i m|t z0 d0|a IHa b IHb|a IHa|fn a IHa|ia a IHa b IHb]; intros v H; cbn [de dstm] in *.
   - reflexivity.
   - rewrite H. reflexivity.
   - destruct (de ev a) as [x|f|kk]; cbn [rbind] in H; try discriminate.
@@ -1012,6 +1043,10 @@ Proof.
     rewrite (IHa x eq_refl). cbn [rbind]. exact (IHb y eq_refl).
   - destruct (de ev a) as [x|f|kk]; cbn [rbind] in H; try discriminate. exact (IHa x eq_refl).
   - destruct (de ev a) as [x|f|kk]; cbn [rbind] in H; try discriminate. exact (IHa x eq_refl).
+  - destruct (de ev a) as [x|f|kk]; cbn [rbind] in H; try discriminate. rewrite (IHa x eq_refl). cbn [rbind].
+    destruct (truth (conv "bool" x)) as [t|f|kk]; cbn [rbind] in *; try discriminate.
+    destruct (Bool.eqb t ia); [|reflexivity].
+    destruct (de ev b) as [y|f|kk]; cbn [rbind] in H; try discriminate. rewrite (IHb y eq_refl). reflexivity.
 Qed.
 
 (* the two-phase reference and the ordinary evaluation have the same values: they can differ only in WHICH fault an
@@ -1032,12 +1067,14 @@ Fixpoint declared (e : ex) (n : nat) (st : state) : Prop :=
   | EBin _ a b => declared a n st /\ declared b (n + size a) st
   | EIdx c _ _ => exists t v, fget (idx_cv c n) st = Some (t, v)
   | EDbl _ _ _ => True | EDiv a b => declared a n st /\ declared b (n + size a) st | ENeg a | EFun _ a => declared a n st
+  | EBool _ a b => (exists w, fget (ebo_name n) st = Some ("bool", w)) /\ declared a (S n) st /\
+                   (forall x, In x (vars b (S n + size a)) -> fget x st = None)   (* the names of the if block are still free *)
   end.
 
 Lemma declared_ext (e : ex) : forall n st st',
   (forall x, In x (vars e n) -> fget x st' = fget x st) -> declared e n st -> declared e n st'.
 Proof.
-  induction e as [z|k|o a IHa b IHb|c i m|t z0 d0|a IHa b IHb|a IHa|fn a IHa]; intros n st st' H D; cbn [declared vars] in *.
+  induction e as [z|k|o a IHa b IHb|c i m|t z0 d0|a IHa b IHb|a IHa|fn a IHa|ia a IHa b IHb]; intros n st st' H D; cbn [declared vars] in *.
   - exact I.
   - destruct D as [(t & v & D1) D2]. split.
     + exists t, v. rewrite H; [exact D1|left; reflexivity].
@@ -1052,16 +1089,20 @@ Proof.
     + eapply IHb; [|exact Db]. intros x Hx. apply H, in_or_app. right; exact Hx.
   - eapply IHa; eauto.
   - eapply IHa; eauto.
+  - destruct D as ((w & Dv) & Da & Df). split; [|split].
+    + exists w. rewrite H; [exact Dv|left; reflexivity].
+    + eapply IHa; [|exact Da]. intros x Hx. apply H. right. apply in_or_app. left; exact Hx.
+    + intros x Hx. rewrite H; [apply Df, Hx|]. right. apply in_or_app. right; exact Hx.
 Qed.
 
 (* the value expression only reads the accumulators of the expression *)
 Definition bound (e : ex) (n : nat) (st : state) : Prop :=
-  forall x, In x (vars e n) -> exists tv, fget x st = Some tv.
+  forall x, In x (bvars e n) -> exists tv, fget x st = Some tv.
 
 Lemma tc_ext (ev : event) (e : ex) : forall n s1 s2,
   bound e n s1 -> (forall x, In x (vars e n) -> fget x s2 = fget x s1) -> eval ev s2 (tc e n) = eval ev s1 (tc e n).
 Proof.
-  induction e as [z|k|o a IHa b IHb|c i m|t z0 d0|a IHa b IHb|a IHa|fn a IHa]; intros n s1 s2 D H; cbn [tc vars] in *.
+  induction e as [z|k|o a IHa b IHb|c i m|t z0 d0|a IHa b IHb|a IHa|fn a IHa|ia a IHa b IHb]; intros n s1 s2 D H; unfold bound in *; cbn [tc vars bvars] in *.
   - reflexivity.
   - destruct (D (kagg k n)) as [tv E1]; [right; left; reflexivity|].
     assert (E2 : fget (kagg k n) s2 = Some tv) by (rewrite H; [exact E1|right; left; reflexivity]).
@@ -1071,7 +1112,7 @@ Proof.
     change (eval ev s1 (CBin (op_str o) (tc a n) (tc b (n + size a))))
       with (rbind (eval ev s1 (tc a n)) (fun x => rbind (eval ev s1 (tc b (n + size a))) (fun y => arith (op_str o) x y))).
     rewrite (IHa n s1 s2), (IHb (n + size a) s1 s2); [reflexivity| | | |];
-      try (intros x Hx; apply H, in_or_app; auto); intros x Hx; apply D; cbn [vars]; apply in_or_app; auto.
+      try (intros x Hx; apply H, in_or_app; auto); intros x Hx; apply D; apply in_or_app; auto.
   - destruct (D (idx_cv c n)) as [tv E1]; [left; reflexivity|].
     assert (E2 : fget (idx_cv c n) s2 = Some tv) by (rewrite H; [exact E1|left; reflexivity]).
     unfold idx_exp.
@@ -1082,125 +1123,71 @@ Proof.
     rewrite !eval_var, (lookup_fget _ _ _ E1), (lookup_fget _ _ _ E2). reflexivity.
   - reflexivity.
   - assert (Ea : eval ev s2 (tc a n) = eval ev s1 (tc a n)).
-    { apply IHa; [intros x Hx; apply D; cbn [vars]; apply in_or_app; auto|intros x Hx; apply H, in_or_app; auto]. }
+    { apply IHa; [intros x Hx; apply D; apply in_or_app; auto|intros x Hx; apply H, in_or_app; auto]. }
     assert (Eb : eval ev s2 (tc b (n + size a)) = eval ev s1 (tc b (n + size a))).
-    { apply IHb; [intros x Hx; apply D; cbn [vars]; apply in_or_app; auto|intros x Hx; apply H, in_or_app; auto]. }
+    { apply IHb; [intros x Hx; apply D; apply in_or_app; auto|intros x Hx; apply H, in_or_app; auto]. }
     destruct (ex_div_needs_cast a b); cbn [eval]; rewrite Ea, Eb; reflexivity.
   - cbn [eval]. rewrite (IHa n s1 s2 D H). reflexivity.
   - cbn [eval eval_args]. rewrite (IHa n s1 s2 D H). reflexivity.
+  - destruct (D (ebo_name n)) as [tv E1]; [left; reflexivity|].
+    assert (E2 : fget (ebo_name n) s2 = Some tv) by (rewrite H; [exact E1|left; reflexivity]).
+    rewrite !eval_var, (lookup_fget _ _ _ E1), (lookup_fget _ _ _ E2). reflexivity.
 Qed.
 
-Lemma te_exec (brs : list branch) (ev : event) (idiom : string) (e : ex) : forall (n : nat) (st : state),
-  bases_ok e = true -> declared e n st ->
-  match dstm ev e with
-  | ROk _ => exists st', exec_stmts brs ev (tss idiom e n) st = ROk st' /\
-                         members st' = members st /\ rows st' = rows st /\
-                         (forall y, ~ In y (vars e n) -> fget y st' = fget y st) /\
-                         bound e n st' /\
-                         (nstuck (de ev e) -> eval ev st' (tc e n) = de ev e)
-  | RFault f => exec_stmts brs ev (tss idiom e n) st = RFault f
-  | RStuck _ => True
-  end.
+(* ---------- code inside an if block: frames ---------- *)
+Lemma exec_snoc (brs : list branch) (ev : event) (l : stmts) (s : stmt) (st : state) :
+  exec_stmts brs ev (snoc_stmts l s) st = rbind (exec_stmts brs ev l st) (fun st' => exec_stmt brs ev s st').
 Proof.
-  induction e as [z|k|o a IHa b IHb|c i m|t z0 d0|a IHa b IHb|a IHa|fn a IHa]; intros n st Hb D; cbn [dstm tss tc vars de declared bases_ok] in *.
-  - exists st. repeat split; auto. intros x [].
-  - destruct D as [(tcv & v0 & Dcv) Dagg].
-    unfold base_ok in Hb. apply andb_prop in Hb as [Hl _]. apply negb_true_iff in Hl.
-    assert (N1 : String.eqb (kagg k n) (cv_name k n) = false) by (apply nm_neq; [reflexivity|exact Hl|lia]).
-    assert (N2 : String.eqb (kagg k n) (iv_name n) = false) by (apply nm_neq; [reflexivity|reflexivity|lia]).
-    assert (N4 : String.eqb (kagg k n) (bo_name n) = false) by (apply nm_neq_base; [reflexivity|reflexivity|discriminate]).
-    pose proof (count_exec brs ev idiom k n st tcv v0 Dcv Dagg N1 N2 N4) as C.
-    unfold dcount in *.
-    destruct (assoc_ss (c_ctype (k_coll k), c_bank (k_coll k)) (ev_colls ev)) as [c|]; cbn [rbind]; [|exact C].
-    destruct c; cbn [rbind]; try exact I; try exact C.
-    destruct (agg_loop ev (agg_type k) (k_agg k) (k_guard k) l (conv (agg_type k) (agg_seed (k_agg k)))) as [z|f|kk] eqn:El; cbn [rbind]; [|exact C|exact I].
-    destruct (assign_upd (cv_name k n) (VVec l) st tcv v0 Dcv) as (_ & _ & G1 & O1 & M1 & R1).
-    assert (Dagg1 : fget (kagg k n) (upd (cv_name k n) (VVec l) st) = Some (agg_type k, conv (agg_type k) (agg_seed (k_agg k)))) by (rewrite (O1 _ N1); exact Dagg).
-    destruct (assign_upd (kagg k n) z _ (agg_type k) _ Dagg1) as (_ & _ & G2 & O2 & M2 & R2).
-    assert (Zu : z <> VUninit).
-    { apply arithable_not_uninit. eapply agg_loop_arithable; [|exact El]. apply conv_arithable. right.
-      destruct (k_agg k) as [|[z0|t0 nn dd] aop body]; cbn; eauto. }
-    eexists. split; [exact C|]. split; [congruence|]. split; [congruence|]. split; [|split].
-    + intros y Hy.
-      assert (Y1 : String.eqb y (kagg k n) = false).
-      { destruct (String.eqb y (kagg k n)) eqn:E; [|reflexivity]. apply String.eqb_eq in E. exfalso. apply Hy. right; left; auto. }
-      assert (Y2 : String.eqb y (cv_name k n) = false).
-      { destruct (String.eqb y (cv_name k n)) eqn:E; [|reflexivity]. apply String.eqb_eq in E. exfalso. apply Hy. left; auto. }
-      rewrite (O2 _ Y1), (O1 _ Y2). reflexivity.
-    + intros x [<-|[<-|[]]].
-      * assert (N3 : String.eqb (cv_name k n) (kagg k n) = false) by (rewrite String.eqb_sym; exact N1).
-        rewrite (O2 _ N3), G1. eauto.
-      * rewrite G2. eauto.
-    + intros _. rewrite eval_var, (lookup_fget _ _ _ G2). destruct z; try reflexivity. contradiction.
-  - apply andb_prop in Hb as [Hba Hbb]. destruct D as [Da Db].
-    specialize (IHa n st Hba Da). rewrite exec_stmts_app.
-    destruct (dstm ev a) as [[]|f|kk]; cbn [rbind]; [|rewrite IHa; reflexivity|exact I].
-    destruct IHa as (st1 & E1 & M1 & R1 & U1 & B1 & V1). rewrite E1. cbn [rbind].
-    assert (Db1 : declared b (n + size a) st1).
-    { eapply declared_ext; [|exact Db]. intros x Hx. apply U1. intro Hxa. exact (vars_disjoint a b n x Hba Hbb Hxa Hx). }
-    specialize (IHb (n + size a) st1 Hbb Db1).
-    destruct (dstm ev b) as [[]|f|kk]; [|exact IHb|exact I].
-    destruct IHb as (st2 & E2 & M2 & R2 & U2 & B2 & V2).
-    exists st2. split; [exact E2|]. split; [congruence|]. split; [congruence|]. split; [|split].
-    + intros y Hy. rewrite U2, U1; [reflexivity| |]; intro H; apply Hy, in_or_app; auto.
-    + intros x Hx. apply in_app_or in Hx as [Hx|Hx].
-      * rewrite U2; [apply B1, Hx|]. intro Hxb. exact (vars_disjoint a b n x Hba Hbb Hx Hxb).
-      * apply B2, Hx.
-    + intro Hn.
-      change (eval ev st2 (CBin (op_str o) (tc a n) (tc b (n + size a))))
-        with (rbind (eval ev st2 (tc a n)) (fun x => rbind (eval ev st2 (tc b (n + size a))) (fun y => arith (op_str o) x y))).
-      rewrite (tc_ext ev a n st1 st2 B1), (V1 (nstuck_bind_l _ _ Hn));
-        [|intros x Hx; apply U2; intro Hxb; exact (vars_disjoint a b n x Hba Hbb Hx Hxb)].
-      destruct (de ev a) as [x|f|kk]; cbn [rbind] in *; [|reflexivity|destruct Hn].
-      rewrite (V2 (nstuck_bind_l _ _ Hn)). reflexivity.
-  - destruct D as (t & v0 & Dcv). rewrite exec_one. cbn [exec_stmt].
-    destruct (assoc_ss (c_ctype c, c_bank c) (ev_colls ev)) as [w|] eqn:Ea; [|reflexivity].
-    destruct (assign_upd (idx_cv c n) w st t v0 Dcv) as (Has & _ & G1 & O1 & M1 & R1).
-    rewrite Has. eexists. split; [reflexivity|]. split; [exact M1|]. split; [exact R1|]. split; [|split].
-    + intros y Hy. apply O1. destruct (String.eqb y (idx_cv c n)) eqn:E; [|reflexivity].
-      apply String.eqb_eq in E. exfalso. apply Hy. left; auto.
-    + intros x [<-|[]]. rewrite G1. eauto.
-    + intro Hn. unfold idx_exp, didx in *. rewrite Ea in *.
-      change (eval ev (upd (idx_cv c n) w st) (CMeth (CMeth (CVar (idx_cv c n)) true "at" (CCons (CInt (Z.of_nat i)) CNil)) (c_arrow c) m CNil))
-        with (rbind (rbind (eval ev (upd (idx_cv c n) w st) (CVar (idx_cv c n))) (fun x => call_method ev x "at" [VInt (Z.of_nat i)])) (fun y => call_method ev y m [])).
-      rewrite eval_var, (lookup_fget _ _ _ G1).
-      destruct w; try (destruct Hn); try reflexivity.
-      cbn [rbind call_method]. change (String.eqb "at" "at") with true. cbv iota.
-      assert (Z0 : (Z.of_nat i <? 0)%Z = false) by (apply Z.ltb_ge, Nat2Z.is_nonneg). rewrite Z0, Nat2Z.id.
-      destruct (nth_error l i) as [y|]; reflexivity.
-  - exists st. repeat split; auto. intros x [].
-  - apply andb_prop in Hb as [Hba Hbb]. destruct D as [Da Db].
-    specialize (IHa n st Hba Da). rewrite exec_stmts_app.
-    destruct (dstm ev a) as [[]|f|kk]; cbn [rbind]; [|rewrite IHa; reflexivity|exact I].
-    destruct IHa as (st1 & E1 & M1 & R1 & U1 & B1 & V1). rewrite E1. cbn [rbind].
-    assert (Db1 : declared b (n + size a) st1).
-    { eapply declared_ext; [|exact Db]. intros x Hx. apply U1. intro Hxa. exact (vars_disjoint a b n x Hba Hbb Hxa Hx). }
-    specialize (IHb (n + size a) st1 Hbb Db1).
-    destruct (dstm ev b) as [[]|f|kk]; [|exact IHb|exact I].
-    destruct IHb as (st2 & E2 & M2 & R2 & U2 & B2 & V2).
-    exists st2. split; [exact E2|]. split; [congruence|]. split; [congruence|]. split; [|split].
-    + intros y Hy. rewrite U2, U1; [reflexivity| |]; intro H; apply Hy, in_or_app; auto.
-    + intros x Hx. apply in_app_or in Hx as [Hx|Hx].
-      * rewrite U2; [apply B1, Hx|]. intro Hxb. exact (vars_disjoint a b n x Hba Hbb Hx Hxb).
-      * apply B2, Hx.
-    + intro Hn.
-      assert (Ea : eval ev st2 (tc a n) = de ev a).
-      { rewrite (tc_ext ev a n st1 st2 B1); [apply V1, (nstuck_bind_l _ _ Hn)|].
-        intros x Hx. apply U2. intro Hxb. exact (vars_disjoint a b n x Hba Hbb Hx Hxb). }
-      destruct (de ev a) as [x|f|kk] eqn:Eda; cbn [rbind] in Hn.
-      * assert (Eb : eval ev st2 (tc b (n + size a)) = de ev b) by (apply V2, (nstuck_bind_l _ _ Hn)).
-        destruct (ex_div_needs_cast a b); cbn [eval]; rewrite Ea, Eb; reflexivity.
-      * destruct (ex_div_needs_cast a b); cbn [eval]; rewrite Ea; reflexivity.
-      * destruct Hn.
-  - specialize (IHa n st Hb D). destruct (dstm ev a) as [[]|f|kk]; [|exact IHa|exact I].
-    destruct IHa as (st1 & E1 & M1 & R1 & U1 & B1 & V1).
-    exists st1. split; [exact E1|]. split; [exact M1|]. split; [exact R1|]. split; [exact U1|]. split; [exact B1|].
-    intro Hn. cbn [eval]. rewrite (V1 (nstuck_bind_l _ _ Hn)). reflexivity.
-  - specialize (IHa n st Hb D). destruct (dstm ev a) as [[]|f|kk]; [|exact IHa|exact I].
-    destruct IHa as (st1 & E1 & M1 & R1 & U1 & B1 & V1).
-    exists st1. split; [exact E1|]. split; [exact M1|]. split; [exact R1|]. split; [exact U1|]. split; [exact B1|].
-    intro Hn. cbn [eval eval_args]. rewrite (V1 (nstuck_bind_l _ _ Hn)). destruct (de ev a); reflexivity.
+  unfold snoc_stmts. rewrite exec_stmts_app. destruct (exec_stmts brs ev l st); cbn [rbind]; try reflexivity.
+  apply exec_one.
 Qed.
+
+Lemma truth_conv_bool (x : value) (t : bool) : truth (conv "bool" x) = ROk t -> conv "bool" x = VBool t.
+Proof. unfold conv. cbn. destruct x; cbn; intro H; inversion H; reflexivity. Qed.
+
+Lemma frame_get_notin (y : string) (f : frame) : ~ In y (fnames f) -> frame_get y f = None.
+Proof.
+  induction f as [|[z tv] r IH]; cbn [fnames map fst frame_get]; intro H; [reflexivity|].
+  destruct (String.eqb y z) eqn:E; [apply String.eqb_eq in E; subst; exfalso; apply H; left; reflexivity|].
+  apply IH. intro Hin. apply H. right; exact Hin.
+Qed.
+
+Lemma fget_pop (y : string) (s : state) : frame_get y (hd [] (frames s)) = None -> fget y (pop_frame s) = fget y s.
+Proof.
+  unfold fget, pop_frame. cbn [frames]. destruct (frames s) as [|f r]; cbn [hd tl frames_get]; intro H; [reflexivity|].
+  rewrite H. reflexivity.
+Qed.
+
+Lemma declare_top (x t : string) (v : value) (st : state) : frames st <> [] ->
+  fnames (hd [] (frames (declare x t v st))) = fnames (hd [] (frames st)) ++ [x].
+Proof.
+  unfold declare. destruct (frames st) as [|f r]; [contradiction|]. intros _. cbn [frames hd]. unfold fnames. rewrite map_app. reflexivity.
+Qed.
+
+Lemma run_decls_top (ev : event) (ds : list decl) : forall st st', frames st <> [] -> run_decls ev ds st = ROk st' ->
+  fnames (hd [] (frames st')) = fnames (hd [] (frames st)) ++ map d_name ds.
+Proof.
+  induction ds as [|d r IH]; intros st st' Hne H; cbn [run_decls map] in *.
+  - inversion H; subst. rewrite app_nil_r. reflexivity.
+  - destruct (d_init d) as [e|].
+    + destruct (eval ev st e) as [v|f|k]; cbn [rbind] in H; try discriminate.
+      rewrite (IH _ _ (declare_nonempty _ _ _ st) H), (declare_top _ _ _ st Hne), <- app_assoc. reflexivity.
+    + rewrite (IH _ _ (declare_nonempty _ _ _ st) H), (declare_top _ _ _ st Hne), <- app_assoc. reflexivity.
+Qed.
+
+Lemma tds_names (e : ex) : forall n, map d_name (tds e n) = bvars e n.
+Proof.
+  induction e as [z|k|o a IHa b IHb|c i m|t z0 d0|a IHa b IHb|a IHa|fn a IHa|ia a IHa b IHb]; intro n; cbn [tds bvars map d_name]; try reflexivity.
+  - rewrite map_app, IHa, IHb. reflexivity.
+  - rewrite map_app, IHa, IHb. reflexivity.
+  - apply IHa.
+  - apply IHa.
+  - rewrite IHa. reflexivity.
+Qed.
+
+Lemma shape_top (s1 s2 : state) : shape s1 = shape s2 -> fnames (hd [] (frames s1)) = fnames (hd [] (frames s2)).
+Proof. unfold shape. destruct (frames s1), (frames s2); cbn [map hd]; intro H; try discriminate; [reflexivity|injection H as H1 H2; exact H1]. Qed.
+
 
 (* pa_type is int or double *)
 Lemma pa_type_cases (a : pa) : pa_type a = "int" \/ pa_type a = "double".
@@ -1260,7 +1247,31 @@ Lemma decls_declared (ev : event) (e : ex) : forall (n : nat) (st : state),
               members st' = members st /\ rows st' = rows st /\
               (forall y, ~ In y (vars e n) -> fget y st' = fget y st).
 Proof.
-  induction e as [z|k|o a IHa b IHb|c i m|t z0 d0|a IHa b IHb|a IHa|fn a IHa]; intros n st Hb Hf; cbn [tds vars declared bases_ok] in *.
+  induction e as [z|k|o a IHa b IHb|c i m|t z0 d0|a IHa b IHb|a IHa|fn a IHa|ia a IHa b IHb]; intros n st Hb Hf; cbn [tds vars declared bases_ok] in *.
+  9: { apply andb_prop in Hb as [Hba Hbb]. set (v := ebo_name n) in *. set (n1 := S n + size a) in *.
+       assert (Nva : ~ In v (vars a (S n))).
+       { intro H. destruct (vars_shape a (S n) v Hba H) as (bb & i & E & L & F & R).
+         unfold v, ebo_name in E. apply (nm_inj "bool_op" bb n i eq_refl L) in E. lia. }
+       assert (Nvb : ~ In v (vars b n1)).
+       { intro H. destruct (vars_shape b n1 v Hbb H) as (bb & i & E & L & F & R).
+         unfold v, ebo_name in E. apply (nm_inj "bool_op" bb n i eq_refl L) in E. unfold n1 in R. lia. }
+       assert (Nne : forall y, y <> v -> String.eqb y v = false).
+       { intros y Hy. destruct (String.eqb y v) eqn:E; [apply String.eqb_eq in E; contradiction|reflexivity]. }
+       cbn [run_decls bo_decl d_init d_name d_type].
+       destruct (declare_spec v "bool" (default_value "bool") st) as (G0 & O0 & M0 & R0); [apply Hf; left; reflexivity|].
+       set (st0 := declare v "bool" (default_value "bool") st) in *.
+       destruct (IHa (S n) st0 Hba) as (st1 & E1 & D1 & M1 & R1 & U1).
+       { intros x Hx. rewrite (O0 x (Nne x (fun E => Nva (eq_ind x (fun z => In z (vars a (S n))) Hx v E)))).
+         apply Hf. right. apply in_or_app. left; exact Hx. }
+       exists st1. split; [exact E1|]. split; [split; [|split]|].
+       + exists (default_value "bool"). rewrite (U1 v Nva). exact G0.
+       + exact D1.
+       + intros x Hx. rewrite U1; [|intro Hxa; exact (vars_disjoint a b (S n) x Hba Hbb Hxa Hx)].
+         rewrite (O0 x (Nne x (fun E => Nvb (eq_ind x (fun z => In z (vars b n1)) Hx v E)))).
+         apply Hf. right. apply in_or_app. right; exact Hx.
+       + split; [congruence|]. split; [congruence|]. intros y Hy.
+         assert (Yv : y <> v) by (intro E; apply Hy; left; symmetry; exact E).
+         rewrite U1; [apply (O0 y (Nne y Yv))|]. intro H. apply Hy. right. apply in_or_app. left; exact H. }
   5: { exists st. cbn. repeat split; auto. }
   5: { apply andb_prop in Hb as [Hba Hbb]. rewrite run_decls_app.
        destruct (IHa n st Hba) as (st1 & E1 & D1 & M1 & R1 & U1); [intros x Hx; apply Hf, in_or_app; auto|].
@@ -1315,6 +1326,205 @@ Proof.
     + eapply declared_ext; [|exact D1]. intros x Hx. apply U2. intro Hxb. exact (vars_disjoint a b n x Hba Hbb Hx Hxb).
     + exact D2.
     + split; [congruence|]. split; [congruence|]. intros y Hy. rewrite U2, U1; [reflexivity| |]; intro H; apply Hy, in_or_app; auto.
+Qed.
+
+Lemma te_exec (brs : list branch) (ev : event) (idiom : string) (e : ex) : forall (n : nat) (st : state),
+  bases_ok e = true -> declared e n st ->
+  match dstm ev e with
+  | ROk _ => exists st', exec_stmts brs ev (tss idiom e n) st = ROk st' /\
+                         members st' = members st /\ rows st' = rows st /\
+                         (forall y, ~ In y (vars e n) -> fget y st' = fget y st) /\
+                         bound e n st' /\
+                         (nstuck (de ev e) -> eval ev st' (tc e n) = de ev e)
+  | RFault f => exec_stmts brs ev (tss idiom e n) st = RFault f
+  | RStuck _ => True
+  end.
+Proof.
+  induction e as [z|k|o a IHa b IHb|c i m|t z0 d0|a IHa b IHb|a IHa|fn a IHa|ia a IHa b IHb]; intros n st Hb D; cbn [dstm tss tc vars bvars de declared bases_ok] in *.
+  - exists st. repeat split; auto. intros x [].
+  - destruct D as [(tcv & v0 & Dcv) Dagg].
+    unfold base_ok in Hb. apply andb_prop in Hb as [Hl _]. apply negb_true_iff in Hl.
+    assert (N1 : String.eqb (kagg k n) (cv_name k n) = false) by (apply nm_neq; [reflexivity|exact Hl|lia]).
+    assert (N2 : String.eqb (kagg k n) (iv_name n) = false) by (apply nm_neq; [reflexivity|reflexivity|lia]).
+    assert (N4 : String.eqb (kagg k n) (bo_name n) = false) by (apply nm_neq_base; [reflexivity|reflexivity|discriminate]).
+    pose proof (count_exec brs ev idiom k n st tcv v0 Dcv Dagg N1 N2 N4) as C.
+    unfold dcount in *.
+    destruct (assoc_ss (c_ctype (k_coll k), c_bank (k_coll k)) (ev_colls ev)) as [c|]; cbn [rbind]; [|exact C].
+    destruct c; cbn [rbind]; try exact I; try exact C.
+    destruct (agg_loop ev (agg_type k) (k_agg k) (k_guard k) l (conv (agg_type k) (agg_seed (k_agg k)))) as [z|f|kk] eqn:El; cbn [rbind]; [|exact C|exact I].
+    destruct (assign_upd (cv_name k n) (VVec l) st tcv v0 Dcv) as (_ & _ & G1 & O1 & M1 & R1).
+    assert (Dagg1 : fget (kagg k n) (upd (cv_name k n) (VVec l) st) = Some (agg_type k, conv (agg_type k) (agg_seed (k_agg k)))) by (rewrite (O1 _ N1); exact Dagg).
+    destruct (assign_upd (kagg k n) z _ (agg_type k) _ Dagg1) as (_ & _ & G2 & O2 & M2 & R2).
+    assert (Zu : z <> VUninit).
+    { apply arithable_not_uninit. eapply agg_loop_arithable; [|exact El]. apply conv_arithable. right.
+      destruct (k_agg k) as [|[z0|t0 nn dd] aop body]; cbn; eauto. }
+    eexists. split; [exact C|]. split; [congruence|]. split; [congruence|]. split; [|split].
+    + intros y Hy.
+      assert (Y1 : String.eqb y (kagg k n) = false).
+      { destruct (String.eqb y (kagg k n)) eqn:E; [|reflexivity]. apply String.eqb_eq in E. exfalso. apply Hy. right; left; auto. }
+      assert (Y2 : String.eqb y (cv_name k n) = false).
+      { destruct (String.eqb y (cv_name k n)) eqn:E; [|reflexivity]. apply String.eqb_eq in E. exfalso. apply Hy. left; auto. }
+      rewrite (O2 _ Y1), (O1 _ Y2). reflexivity.
+    + intros x [<-|[<-|[]]].
+      * assert (N3 : String.eqb (cv_name k n) (kagg k n) = false) by (rewrite String.eqb_sym; exact N1).
+        rewrite (O2 _ N3), G1. eauto.
+      * rewrite G2. eauto.
+    + intros _. rewrite eval_var, (lookup_fget _ _ _ G2). destruct z; try reflexivity. contradiction.
+  - apply andb_prop in Hb as [Hba Hbb]. destruct D as [Da Db].
+    specialize (IHa n st Hba Da). rewrite exec_stmts_app.
+    destruct (dstm ev a) as [[]|f|kk]; cbn [rbind]; [|rewrite IHa; reflexivity|exact I].
+    destruct IHa as (st1 & E1 & M1 & R1 & U1 & B1 & V1). rewrite E1. cbn [rbind].
+    assert (Db1 : declared b (n + size a) st1).
+    { eapply declared_ext; [|exact Db]. intros x Hx. apply U1. intro Hxa. exact (vars_disjoint a b n x Hba Hbb Hxa Hx). }
+    specialize (IHb (n + size a) st1 Hbb Db1).
+    destruct (dstm ev b) as [[]|f|kk]; [|exact IHb|exact I].
+    destruct IHb as (st2 & E2 & M2 & R2 & U2 & B2 & V2).
+    exists st2. split; [exact E2|]. split; [congruence|]. split; [congruence|]. split; [|split].
+    + intros y Hy. rewrite U2, U1; [reflexivity| |]; intro H; apply Hy, in_or_app; auto.
+    + intros x Hx. apply in_app_or in Hx as [Hx|Hx].
+      * rewrite U2; [apply B1, Hx|]. intro Hxb. exact (vars_disjoint a b n x Hba Hbb (bvars_incl a n x Hx) Hxb).
+      * apply B2, Hx.
+    + intro Hn.
+      change (eval ev st2 (CBin (op_str o) (tc a n) (tc b (n + size a))))
+        with (rbind (eval ev st2 (tc a n)) (fun x => rbind (eval ev st2 (tc b (n + size a))) (fun y => arith (op_str o) x y))).
+      rewrite (tc_ext ev a n st1 st2 B1), (V1 (nstuck_bind_l _ _ Hn));
+        [|intros x Hx; apply U2; intro Hxb; exact (vars_disjoint a b n x Hba Hbb Hx Hxb)].
+      destruct (de ev a) as [x|f|kk]; cbn [rbind] in *; [|reflexivity|destruct Hn].
+      rewrite (V2 (nstuck_bind_l _ _ Hn)). reflexivity.
+  - destruct D as (t & v0 & Dcv). rewrite exec_one. cbn [exec_stmt].
+    destruct (assoc_ss (c_ctype c, c_bank c) (ev_colls ev)) as [w|] eqn:Ea; [|reflexivity].
+    destruct (assign_upd (idx_cv c n) w st t v0 Dcv) as (Has & _ & G1 & O1 & M1 & R1).
+    rewrite Has. eexists. split; [reflexivity|]. split; [exact M1|]. split; [exact R1|]. split; [|split].
+    + intros y Hy. apply O1. destruct (String.eqb y (idx_cv c n)) eqn:E; [|reflexivity].
+      apply String.eqb_eq in E. exfalso. apply Hy. left; auto.
+    + intros x [<-|[]]. rewrite G1. eauto.
+    + intro Hn. unfold idx_exp, didx in *. rewrite Ea in *.
+      change (eval ev (upd (idx_cv c n) w st) (CMeth (CMeth (CVar (idx_cv c n)) true "at" (CCons (CInt (Z.of_nat i)) CNil)) (c_arrow c) m CNil))
+        with (rbind (rbind (eval ev (upd (idx_cv c n) w st) (CVar (idx_cv c n))) (fun x => call_method ev x "at" [VInt (Z.of_nat i)])) (fun y => call_method ev y m [])).
+      rewrite eval_var, (lookup_fget _ _ _ G1).
+      destruct w; try (destruct Hn); try reflexivity.
+      cbn [rbind call_method]. change (String.eqb "at" "at") with true. cbv iota.
+      assert (Z0 : (Z.of_nat i <? 0)%Z = false) by (apply Z.ltb_ge, Nat2Z.is_nonneg). rewrite Z0, Nat2Z.id.
+      destruct (nth_error l i) as [y|]; reflexivity.
+  - exists st. repeat split; auto. intros x [].
+  - apply andb_prop in Hb as [Hba Hbb]. destruct D as [Da Db].
+    specialize (IHa n st Hba Da). rewrite exec_stmts_app.
+    destruct (dstm ev a) as [[]|f|kk]; cbn [rbind]; [|rewrite IHa; reflexivity|exact I].
+    destruct IHa as (st1 & E1 & M1 & R1 & U1 & B1 & V1). rewrite E1. cbn [rbind].
+    assert (Db1 : declared b (n + size a) st1).
+    { eapply declared_ext; [|exact Db]. intros x Hx. apply U1. intro Hxa. exact (vars_disjoint a b n x Hba Hbb Hxa Hx). }
+    specialize (IHb (n + size a) st1 Hbb Db1).
+    destruct (dstm ev b) as [[]|f|kk]; [|exact IHb|exact I].
+    destruct IHb as (st2 & E2 & M2 & R2 & U2 & B2 & V2).
+    exists st2. split; [exact E2|]. split; [congruence|]. split; [congruence|]. split; [|split].
+    + intros y Hy. rewrite U2, U1; [reflexivity| |]; intro H; apply Hy, in_or_app; auto.
+    + intros x Hx. apply in_app_or in Hx as [Hx|Hx].
+      * rewrite U2; [apply B1, Hx|]. intro Hxb. exact (vars_disjoint a b n x Hba Hbb (bvars_incl a n x Hx) Hxb).
+      * apply B2, Hx.
+    + intro Hn.
+      assert (Ea : eval ev st2 (tc a n) = de ev a).
+      { rewrite (tc_ext ev a n st1 st2 B1); [apply V1, (nstuck_bind_l _ _ Hn)|].
+        intros x Hx. apply U2. intro Hxb. exact (vars_disjoint a b n x Hba Hbb Hx Hxb). }
+      destruct (de ev a) as [x|f|kk] eqn:Eda; cbn [rbind] in Hn.
+      * assert (Eb : eval ev st2 (tc b (n + size a)) = de ev b) by (apply V2, (nstuck_bind_l _ _ Hn)).
+        destruct (ex_div_needs_cast a b); cbn [eval]; rewrite Ea, Eb; reflexivity.
+      * destruct (ex_div_needs_cast a b); cbn [eval]; rewrite Ea; reflexivity.
+      * destruct Hn.
+  - specialize (IHa n st Hb D). destruct (dstm ev a) as [[]|f|kk]; [|exact IHa|exact I].
+    destruct IHa as (st1 & E1 & M1 & R1 & U1 & B1 & V1).
+    exists st1. split; [exact E1|]. split; [exact M1|]. split; [exact R1|]. split; [exact U1|]. split; [exact B1|].
+    intro Hn. cbn [eval]. rewrite (V1 (nstuck_bind_l _ _ Hn)). reflexivity.
+  - specialize (IHa n st Hb D). destruct (dstm ev a) as [[]|f|kk]; [|exact IHa|exact I].
+    destruct IHa as (st1 & E1 & M1 & R1 & U1 & B1 & V1).
+    exists st1. split; [exact E1|]. split; [exact M1|]. split; [exact R1|]. split; [exact U1|]. split; [exact B1|].
+    intro Hn. cbn [eval eval_args]. rewrite (V1 (nstuck_bind_l _ _ Hn)). destruct (de ev a); reflexivity.
+  - (* EBool: the first operand in the current block, the second inside `if (v)` / `if (!v)` *)
+    apply andb_prop in Hb as [Hba Hbb]. destruct D as ((w & Dv) & Da & Df).
+    set (v := ebo_name n) in *. set (n1 := S n + size a) in *.
+    assert (Nva : ~ In v (vars a (S n))).
+    { intro H. destruct (vars_shape a (S n) v Hba H) as (bb & i & E & L & F & R).
+      unfold v, ebo_name in E. apply (nm_inj "bool_op" bb n i eq_refl L) in E. lia. }
+    assert (Nvb : ~ In v (vars b n1)).
+    { intro H. destruct (vars_shape b n1 v Hbb H) as (bb & i & E & L & F & R).
+      unfold v, ebo_name in E. apply (nm_inj "bool_op" bb n i eq_refl L) in E. unfold n1 in R. lia. }
+    assert (Nne : forall y, y <> v -> String.eqb y v = false).
+    { intros y Hy. destruct (String.eqb y v) eqn:E; [apply String.eqb_eq in E; contradiction|reflexivity]. }
+    unfold bo_lower, bo_first. cbn [bo_tail].
+    change (SCons (SIf (bo_check ia v) (bo_operand v (tds b n1) (tss idiom b n1) (tc b n1)) None) SNil)
+      with (one_stmt (SIf (bo_check ia v) (bo_operand v (tds b n1) (tss idiom b n1) (tc b n1)) None)).
+    rewrite exec_stmts_app, exec_snoc.
+    specialize (IHa (S n) st Hba Da).
+    destruct (dstm ev a) as [[]|f|kk]; cbn [rbind]; [|rewrite IHa; reflexivity|exact I].
+    destruct IHa as (st1 & E1 & M1 & R1 & U1 & B1 & V1). rewrite E1. cbn [rbind]. rewrite exec_set.
+    destruct (de ev a) as [x|f|kk] eqn:Eda; cbn [rbind]; [|rewrite (V1 I); reflexivity|exact I].
+    rewrite (V1 I). cbn [rbind].
+    assert (Dv1 : fget v st1 = Some ("bool", w)) by (rewrite (U1 v Nva); exact Dv).
+    destruct (assign_upd v (conv "bool" x) st1 "bool" w Dv1) as (Ha & Hlk & G2 & O2 & M2 & R2).
+    rewrite Hlk. cbv zeta. rewrite Ha. cbn [rbind].
+    set (st2 := upd v (conv "bool" x) st1) in *.
+    rewrite exec_one, exec_if.
+    destruct (truth (conv "bool" x)) as [t|f|kk] eqn:Et; cbn [rbind]; [|destruct (conv "bool" x); discriminate|exact I].
+    pose proof (truth_conv_bool x t Et) as Ec.
+    assert (G2' : fget v st2 = Some ("bool", VBool t)) by (rewrite G2, Ec; reflexivity).
+    assert (Eg : rbind (eval ev st2 (bo_check ia v)) truth = ROk (Bool.eqb t ia)).
+    { destruct ia; [rewrite (guard_and_value ev v st2 "bool" t (lookup_fget _ _ _ G2'))|rewrite (guard_or_value ev v st2 "bool" t (lookup_fget _ _ _ G2'))];
+        destruct t; reflexivity. }
+    destruct (eval ev st2 (bo_check ia v)) as [gv|f|kk]; cbn [rbind] in Eg |- *; try discriminate.
+    rewrite Eg. cbn [rbind].
+    destruct (Bool.eqb t ia) eqn:Eti.
+    + (* the second operand is evaluated, inside its own block *)
+      unfold bo_operand. rewrite exec_block_eq.
+      destruct (decls_declared ev b n1 (enter [] st2) Hbb) as (st3 & E3 & D3 & M3 & R3 & U3).
+      { intros y Hy. rewrite fget_enter by reflexivity. rewrite (O2 y (Nne y (fun E => Nvb (eq_ind y (fun z => In z (vars b n1)) Hy v E)))).
+        rewrite U1; [apply Df, Hy|]. intro Hya. exact (vars_disjoint a b (S n) y Hba Hbb Hya Hy). }
+      rewrite E3. cbn [rbind]. rewrite exec_snoc.
+      specialize (IHb n1 st3 Hbb D3).
+      destruct (dstm ev b) as [[]|f|kk]; cbn [rbind]; [|rewrite IHb; reflexivity|exact I].
+      destruct IHb as (st4 & E4 & M4 & R4 & U4 & B4 & V4). rewrite E4. cbn [rbind]. rewrite exec_set.
+      destruct (de ev b) as [y|f|kk] eqn:Edb; cbn [rbind]; [|rewrite (V4 I); reflexivity|exact I].
+      rewrite (V4 I). cbn [rbind].
+      assert (Dv4 : fget v st4 = Some ("bool", VBool t)).
+      { rewrite (U4 v Nvb), (U3 v Nvb), fget_enter by reflexivity. exact G2'. }
+      destruct (assign_upd v (conv "bool" y) st4 "bool" (VBool t) Dv4) as (Ha5 & Hlk5 & G5 & O5 & M5 & R5).
+      rewrite Hlk5. cbv zeta. rewrite Ha5. cbn [rbind].
+      set (st5 := upd v (conv "bool" y) st4) in *.
+      (* the frame the block opened holds exactly the second operand's block-level names, and it is popped *)
+      assert (Top5 : fnames (hd [] (frames st5)) = bvars b n1).
+      { rewrite (shape_top st5 st4 (assign_shape _ _ _ _ Ha5)).
+        rewrite (shape_top st4 st3 (proj2 (proj2 (exec_shape brs ev)) _ _ _ E4)).
+        rewrite (run_decls_top ev (tds b n1) (enter [] st2) st3 ltac:(discriminate) E3). cbn [enter frames hd fnames map app]. apply tds_names. }
+      assert (Pop : forall z, ~ In z (vars b n1) -> fget z (pop_frame st5) = fget z st5).
+      { intros z Hz. apply fget_pop, frame_get_notin. rewrite Top5. intro Hb'. apply Hz, bvars_incl, Hb'. }
+      assert (Back : forall z, ~ In z (vars b n1) -> z <> v -> fget z (pop_frame st5) = fget z st1).
+      { intros z Hz Hzv. rewrite (Pop z Hz). rewrite (O5 z (Nne z Hzv)), (U4 z Hz), (U3 z Hz), fget_enter by reflexivity.
+        apply (O2 z (Nne z Hzv)). }
+      exists (pop_frame st5). split; [reflexivity|]. split; [|split; [|split; [|split]]].
+      * cbn [pop_frame members]. rewrite M5, M4, M3. cbn [enter members]. rewrite M2. exact M1.
+      * cbn [pop_frame rows]. rewrite R5, R4, R3. cbn [enter rows]. rewrite R2. exact R1.
+      * intros z Hz.
+        assert (Zv : z <> v) by (intro E; apply Hz; left; symmetry; exact E).
+        assert (Za : ~ In z (vars a (S n))) by (intro H; apply Hz; right; apply in_or_app; left; exact H).
+        assert (Zb : ~ In z (vars b n1)) by (intro H; apply Hz; right; apply in_or_app; right; exact H).
+        rewrite (Back z Zb Zv). apply (U1 z Za).
+      * intros z [E|Hz].
+        -- rewrite <- E. fold v. rewrite (Pop v Nvb). rewrite G5. eauto.
+        -- pose proof (bvars_incl a (S n) z Hz) as Hza.
+           assert (Zb : ~ In z (vars b n1)) by (intro H; exact (vars_disjoint a b (S n) z Hba Hbb Hza H)).
+           assert (Zv : z <> v) by (intro E; subst z; exact (Nva Hza)).
+           rewrite (Back z Zb Zv). apply B1, Hz.
+      * intro Hn. rewrite eval_var. rewrite (lookup_fget _ _ _ (eq_trans (Pop v Nvb) G5)).
+        unfold rdv in *. destruct (conv "bool" y); try reflexivity. destruct Hn.
+    + (* the first operand decides: the second one's code is not run *)
+      exists st2. split; [reflexivity|]. split; [rewrite M2; exact M1|]. split; [rewrite R2; exact R1|]. split; [|split].
+      * intros z Hz.
+        assert (Zv : z <> v) by (intro E; apply Hz; left; symmetry; exact E).
+        assert (Za : ~ In z (vars a (S n))) by (intro H; apply Hz; right; apply in_or_app; left; exact H).
+        rewrite (O2 z (Nne z Zv)). apply (U1 z Za).
+      * intros z [E|Hz]; [rewrite <- E; fold v; rewrite G2'; eauto|].
+        pose proof (bvars_incl a (S n) z Hz) as Hza.
+        assert (Zv : z <> v) by (intro E; subst z; exact (Nva Hza)).
+        rewrite (O2 z (Nne z Zv)). apply B1, Hz.
+      * intros _. rewrite eval_var, (lookup_fget _ _ _ G2'), Ec. reflexivity.
 Qed.
 
 (* ---------- the whole program ---------- *)
@@ -1811,7 +2021,7 @@ Lemma col_done_ext (ev : event) (c : column) (mem : string) (n : nat) (st st' : 
 Proof.
   destruct c as [e|cr ps body|cr ps body line]; cbn [col_done cvars]; intros Hf Hm D.
   - destruct D as (B & E & (old & M)). split; [|split].
-    + intros x Hx. rewrite (Hf x Hx). apply B, Hx.
+    + intros x Hx. rewrite (Hf x (bvars_incl e n x Hx)). apply B, Hx.
     + intro Hn. rewrite (tc_ext ev e n st st' B Hf). exact (E Hn).
     + exists old. rewrite Hm. exact M.
   - destruct D as (v & Ep & Sh & D). exists v. split; [exact Ep|]. split; [exact Sh|]. rewrite Hm. exact D.
@@ -2317,6 +2527,25 @@ Proof.
     destruct (nth_error l i) as [v|]; [|reflexivity]. destruct (call_method ev v m []); reflexivity. }
   rewrite Ed in C. destruct (nth_error l i) as [v|]; [|exact C].
   intros x Hx. rewrite Hx in C. cbn [rbind] in C. destruct C as (ms' & E & _). exists ms'. exact E.
+Qed.
+
+(* and / or at event level are as lazy as the query: when the first operand decides, the second one - its retrievals, its
+   loops, its bounds-checked at() - is not evaluated, whatever it would do *)
+Lemma ebool_lazy (ev : event) (is_and : bool) (a b : ex) (x : value) (t : bool) :
+  de ev a = ROk x -> truth (conv "bool" x) = ROk t -> Bool.eqb t is_and = false ->
+  dex ev (EBool is_and a b) = ROk (VBool t).
+Proof.
+  intros Ha Ht Hd. unfold dex. cbn [dstm de]. rewrite (dstm_of_de ev a x Ha), Ha. cbn [rbind]. rewrite Ht. cbn [rbind].
+  rewrite Hd. cbn [rbind]. rewrite (truth_conv_bool x t Ht). reflexivity.
+Qed.
+(* and when it does not decide, the value is the second operand's *)
+Lemma ebool_second (ev : event) (is_and : bool) (a b : ex) (x y : value) (t u : bool) :
+  de ev a = ROk x -> truth (conv "bool" x) = ROk t -> Bool.eqb t is_and = true ->
+  de ev b = ROk y -> truth (conv "bool" y) = ROk u ->
+  dex ev (EBool is_and a b) = ROk (VBool u).
+Proof.
+  intros Ha Ht Hd Hb Hu. unfold dex. cbn [dstm de]. rewrite (dstm_of_de ev a x Ha), Ha. cbn [rbind]. rewrite Ht. cbn [rbind].
+  rewrite Hd, (dstm_of_de ev b y Hb), Hb. cbn [rbind]. rewrite (truth_conv_bool y u Hu). reflexivity.
 Qed.
 
 (* the two-phase row and the ordinary column-after-column evaluation give the same rows: they can differ only in WHICH
